@@ -20,6 +20,7 @@ import itertools
 import os
 
 from core import fseq, fseqs, fbool, pseq, guarded
+import past
 import used
 
 PROP = "C12"
@@ -28,7 +29,8 @@ RULE = ("exhaustive: every permutation up to the stated length for every operato
         "as one history line per length; random: structured permutations (231-avoiders, layered, direct sums with "
         "strong fixed points, rotations of the identity, few-passes-from-sorted, random) up to length 40; "
         "non-trivial = |perm| >= 3 (a device has something to do), for ss.* additionally a non-minimum exists or "
-        "the error branch is taken; distinct = distinct op lines")
+        "the error branch is taken; distinct = distinct op lines"
+        ' Hardening pass 2: stream `large` (64-70, ~200, 398-403, ~600, 1000: planted 231/312/321/2341/3241 near the ends of an increasing permutation, structured shapes); permutations of heavy lines are objects with a past (past.mkperm_u with the sorting operators as use); the tableau returned by _perm_to_yt is destroyed; dihedral_group is called with a history of abandoned larger/smaller listings.')
 ASSUMPTIONS = [
     "model/implementation agreement outside the enumerated and sampled inputs is assumed",
     "count_stack_sorts / count_pop_stack_sorts do not terminate on non-permutation tuples (e.g. Perm((1,2))): "
@@ -93,6 +95,13 @@ def worker_init():
     from permuta.bisc import perm_properties
     from permuta.permutils.groups import dihedral_group as dg
     Perm, MeshPatt, Bij, PP, dihedral_group = P, M, Bijections, perm_properties, dg
+    # the counting wrapper below puts one extra frame on the stack for every level of the library's recursive
+    # `_stack_sort` (depth = length for an increasing tail): without compensation a permutation of length ~480 would
+    # hit the interpreter's default limit of 1000 HERE although the library alone copes with ~990.  The limit is raised
+    # so that the wrapped library fails where the bare one does (about twice the frames + the harness' own).
+    import sys
+    if sys.getrecursionlimit() < 2100:
+        sys.setrecursionlimit(2100)
     if not getattr(P, "_c12_wrapped", False):
         # counting wrappers only: behaviour is unchanged unless a budget set by `_bounded` runs out
         orig_pop, orig_stack = P.pop_stack_sort, P._stack_sort
@@ -207,15 +216,32 @@ def _warm12(p):
             used.quiet(getattr(p, _NEIGH[(dg >> s) % len(_NEIGH)]))
         if len(p) <= 9:
             used.quiet(getattr(PP, _FAMFN[_FAMS[(dg >> 17) % len(_FAMS)]]), p)
-        used.quiet(Bij.simion_and_schmidt, p, bool(dg & 1))
-        used.quiet(Bij.simion_and_schmidt, p, not dg & 1)
+        if len(p) <= 100:       # (its membership test alone needs 0.6 s on 231 + identity of length 400)
+            used.quiet(Bij.simion_and_schmidt, p, bool(dg & 1))
+            used.quiet(Bij.simion_and_schmidt, p, not dg & 1)
+    finally:
+        _BUDGET[0], _BUDGET[1] = saved
+
+
+def _c12_use(p):
+    """the sorting operators and predicates themselves, on an object a derived object is about to be made from"""
+    saved = list(_BUDGET)
+    _BUDGET[0] = _BUDGET[1] = None
+    try:
+        for g in ("stack_sort", "pop_stack_sort", "quick_sort", "stack_sortable"):
+            used.quiet(getattr(p, g))
+        if len(p) <= 9:
+            used.quiet(PP._perm_to_yt, p)
     finally:
         _BUDGET[0], _BUDGET[1] = saved
 
 
 def _UP(seq):
     seq = tuple(seq)
-    return used.obj(("P", seq), lambda: Perm(seq), _warm12)
+    # an object with a past (fresh / used / derived from a used object through another API route; beyond length 120
+    # the routes cost too much: plain constructor), then used by the neighbouring C12 operations
+    return used.obj(("P", seq), lambda: past.mkperm_u(seq, 2, _c12_use) if len(seq) <= 120 and used.is_perm(seq) else Perm(seq),
+                    _warm12)
 
 
 _NOTWICE = ("ss.bij", "ss.bijinv", "ss.bad", "dgroup", "dgroup.len")
@@ -283,11 +309,22 @@ def _impl(op, a, P):
     if op == "fam.all":
         return guarded(lambda: "".join(fbool(getattr(PP, _FAMFN[k])(P(pseq(a[0])))) for k in _FAMS))
     if op == "yt":
-        return guarded(lambda: fseqs(PP._perm_to_yt(P(pseq(a[0])))))
-    if op == "dgroup":
-        return guarded(lambda: fseqs(sorted(tuple(p) for p in dihedral_group(int(a[0])))))
-    if op == "dgroup.len":
-        return guarded(lambda: str(sum(1 for _ in dihedral_group(int(a[0])))))
+        def yt():
+            rows = PP._perm_to_yt(P(pseq(a[0])))
+            out = fseqs(rows)
+            used.scrub(rows)          # the tableau that was handed out is destroyed (the line may be evaluated again)
+            return out
+        return guarded(yt)
+    if op in ("dgroup", "dgroup.len"):
+        n = int(a[0])
+        # call history of the generator function: a larger and a smaller group started and abandoned, one of the
+        # same size consumed half; then the listing under test, twice
+        used.sip(lambda: dihedral_group(n + 1), 2)
+        used.sip(lambda: dihedral_group(max(n - 1, 0)), 1)
+        used.sip(lambda: dihedral_group(n), n)
+        if op == "dgroup":
+            return used.twice(lambda: guarded(lambda: fseqs(sorted(tuple(p) for p in dihedral_group(n)))))
+        return used.twice(lambda: guarded(lambda: str(sum(1 for _ in dihedral_group(n)))))
     raise ValueError("unknown op " + op)
 
 
@@ -299,6 +336,22 @@ def _is_perm(s):
 def _contains3(s, p):
     """classical containment of a length-3 pattern by brute force over index triples"""
     n = len(s)
+    if n > 45:
+        # LONG inputs (`large` stream): for every middle index j, is there a suitable entry on the left and one on the
+        # right?  (same definition, quadratic instead of cubic)
+        for j in range(1, n - 1):
+            lo, hi = (None, None), (None, None)
+            left = [s[i] for i in range(j) if (p[0] < p[1]) == (s[i] < s[j])]
+            right = [s[k] for k in range(j + 1, n) if (p[2] < p[1]) == (s[k] < s[j])]
+            if not left or not right:
+                continue
+            if p[0] < p[2]:
+                if min(left) < max(right):
+                    return True
+            elif max(left) > min(right):
+                return True
+            del lo, hi
+        return False
     for i in range(n):
         for j in range(i + 1, n):
             for k in range(j + 1, n):
@@ -377,12 +430,40 @@ def dev_quick(s):
     s = list(s)
     if not s:
         return ()
+    if len(s) > 50:
+        return _dev_quick_long(s)
     sfp = [i for i in range(len(s)) if all(s[j] < s[i] for j in range(i)) and all(s[j] > s[i] for j in range(i + 1, len(s)))]
     if sfp:
         m = sfp[-1]
         return dev_quick(s[:m]) + (s[m],) + dev_quick(s[m + 1:])
     f = s[0]
     return tuple(x for x in s if x < f) + (f,) + tuple(x for x in s if x > f)
+
+
+def _dev_quick_long(s):
+    """the same device for LONG words (`large` stream), where the definition above is cubic and recurses once per
+    strong fixed point: strong fixed points are found with running prefix maxima / suffix minima, and the recursion
+    is unrolled from the right - the part to the right of the rightmost strong fixed point has none of its own (one
+    would be a strong fixed point of the whole word), so it is partitioned around its first entry at once"""
+    def part(w):
+        return [] if not w else [x for x in w if x < w[0]] + [w[0]] + [x for x in w if x > w[0]]
+    cur, pieces = list(s), []
+    while cur:
+        n = len(cur)
+        sufmin = [None] * (n + 1)
+        for i in range(n - 1, -1, -1):
+            sufmin[i] = cur[i] if sufmin[i + 1] is None else min(cur[i], sufmin[i + 1])
+        m, premax = None, None
+        for i in range(n):
+            if (premax is None or premax < cur[i]) and (sufmin[i + 1] is None or sufmin[i + 1] > cur[i]):
+                m = i
+            premax = cur[i] if premax is None else max(premax, cur[i])
+        if m is None:
+            pieces.append(part(cur))
+            break
+        pieces.append([cur[m]] + part(cur[m + 1:]))
+        cur = cur[:m]
+    return tuple(x for piece in reversed(pieces) for x in piece)
 
 
 _DEV = {"stack": dev_stack, "pop": dev_pop, "bubble": dev_bubble, "quick": dev_quick}
@@ -901,6 +982,54 @@ def run(ctx):
                 s = tuple(l)
         lines.append("fam.%s %s" % (k, fseq(s)))
     ctx.compare("random-families", lines)
+    # ---- sizes the other streams never reach (they stop at 40): 64-70, ~200, around 400/401, ~600, 1000.
+    # Measured limits (~0.2 s per line on implementation, oracle and model): count_stack_sorts on a random permutation
+    # needs 4 s (implementation) at 400 -> only on permutations a few passes from sorted from 200 on; Simion-Schmidt
+    # needs 4 s at 200 -> up to 70; at 1000 the model needs > 1 s for cnt.pop and dev.quick -> left out there.  The
+    # pattern characterisations inside the oracle stop at length 9, the device simulation decides.
+    lines = []
+
+    def planted(n):
+        """one occurrence of 231 / 312 / 321 / 2341 / 3241 in an otherwise increasing permutation: in the first
+        entries, in the last entries, or spread over first / middle / last position"""
+        patt = rng.choice([(1, 2, 0), (2, 0, 1), (2, 1, 0), (1, 2, 3, 0), (2, 1, 3, 0), (1, 0), (0, 1, 2)])
+        k = len(patt)
+        where = rng.randrange(3)
+        fewp[0] = where < 2                  # at most three passes of a stack sort the first two shapes
+        if where == 0:
+            return patt + tuple(range(k, n))
+        if where == 1:
+            return tuple(range(n - k)) + tuple(n - k + v for v in patt)
+        pos = sorted([0, n - 1] + rng.sample(range(1, n - 1), k - 2)) if k >= 2 else [0]
+        vals = sorted(rng.sample(range(n), k)) if rng.random() < 0.5 else [pos[i] for i in range(k)]
+        s_ = [None] * n
+        for i, q in enumerate(pos):
+            s_[q] = vals[patt[i]]
+        it = iter(v for v in range(n) if v not in vals)
+        return tuple(v if v is not None else next(it) for v in s_)
+    few, fewp = ["cnt.stack"], [False]
+    for lo, hi, cnt in ((64, 70, 16), (199, 202, 5), (398, 403, 8), (597, 602, 2), (1000, 1000, 2)):
+        for j in range(cnt if quick else cnt * 5):
+            n = rng.randrange(lo, hi + 1)
+            near = j % 2 == 0 and n < 900
+            # (at 1000 only shallow shapes: on a monotone run of ~995 entries the library's recursive _stack_sort hits
+            # the interpreter's recursion limit - bare interpreter, identity of length 1000 -, a resource limit of the
+            # implementation that is reported and not exercised; up to ~600 every shape is used)
+            s = planted(n) if near else structured(rng, n) if n < 900 else rand_perm(rng, n)
+            ops = SORT_OPS[:10] + DEV_OPS + ["cnt.pop", "yt", "fam.alt", "fam.dihedral", "fam.yt22", "fam.yt32"]
+            if n >= 1000:
+                ops = [o for o in ops if o not in ("cnt.pop", "dev.quick", "sort.quick", "able.quick")] + ["sort.quick"]
+            if n <= 70 or (near and fewp[0]):
+                ops = ops + few
+            if not quick or n <= 70:
+                pass
+            else:
+                ops = rng.sample(ops, 12)
+            lines.extend(op + " " + fseq(s) for op in ops)
+            if n <= 70:
+                lines.append("ss.chk " + fseq(rand_av123(rng, n) if j % 3 else s))
+                lines.append("ss.chkinv " + fseq(rand_av132(rng, n) if j % 3 else s))
+    ctx.compare("large", lines)
     # ---- malformed / glue: non-standard tuples (legal for the constructor), wrong argument types
     # (tuples with repeated entries are left out: tie-breaking there is an implementation detail)
     mal = [(2, 1, 3), (1, 2), (5,), (3, 1), (1, 3), (0, 2), (4, 2, 0), (1, 3, 2), (1, 2, 3), (3, 2, 1), (9, 4, 6, 5)]
